@@ -1290,18 +1290,25 @@ ares_status_t ares_buf_parse_dns_str(ares_buf_t *buf, size_t remaining_len,
 
 ares_status_t ares_buf_append_num_dec(ares_buf_t *buf, size_t num, size_t len)
 {
-  size_t i;
-  size_t mod;
+  size_t        i;
+  size_t        mod;
+  ares_status_t status;
 
   if (len == 0) {
     len = ares_count_digits(num);
   }
 
+  /* Reserve the room for all digits up front so that a failed allocation
+   * can't leave a partial number behind */
+  status = ares_buf_ensure_space(buf, len);
+  if (status != ARES_SUCCESS) {
+    return status;
+  }
+
   mod = ares_pow(10, len);
 
   for (i = len; i > 0; i--) {
-    size_t        digit = (num % mod);
-    ares_status_t status;
+    size_t digit = (num % mod);
 
     mod /= 10;
 
@@ -1322,14 +1329,21 @@ ares_status_t ares_buf_append_num_dec(ares_buf_t *buf, size_t num, size_t len)
 ares_status_t ares_buf_append_num_hex(ares_buf_t *buf, size_t num, size_t len)
 {
   size_t                     i;
+  ares_status_t              status;
   static const unsigned char hexbytes[] = "0123456789ABCDEF";
 
   if (len == 0) {
     len = ares_count_hexdigits(num);
   }
 
+  /* Reserve the room for all digits up front so that a failed allocation
+   * can't leave a partial number behind */
+  status = ares_buf_ensure_space(buf, len);
+  if (status != ARES_SUCCESS) {
+    return status;
+  }
+
   for (i = len; i > 0; i--) {
-    ares_status_t status;
     status = ares_buf_append_byte(buf, hexbytes[(num >> ((i - 1) * 4)) & 0xF]);
     if (status != ARES_SUCCESS) {
       return status; /* LCOV_EXCL_LINE: OutOfMemory */
